@@ -127,6 +127,11 @@ EmitCase ==
   IF c.g = "scan"
   THEN PrintT(ToJson([id |-> IdOf(c), kind |-> "scan", tm |-> "TraceC05", src |-> Spell(c.xs, EffDelims(QuadOf(c))),
                       delims |-> QuadOf(c), line0 |-> c.line0]))
-  ELSE PrintT(ToJson([id |-> IdOf(c), kind |-> "render", tm |-> "TraceRender", prog |-> RProgs(AllCustom(c))[c.k], env |-> REnv,
-                      spell |-> [delims |-> QuadOf(c)], chkline |-> TRUE, line0 |-> 1]))
+  ELSE /\ PrintT(ToJson([id |-> IdOf(c), kind |-> "render", tm |-> "TraceRender", prog |-> RProgs(AllCustom(c))[c.k], env |-> REnv,
+                         spell |-> [delims |-> QuadOf(c)], chkline |-> TRUE, line0 |-> 1]))
+       \* the same on an engine that had been given other delimiters before: the last call of Delims is the one that counts,
+       \* and a position it leaves empty is the default again
+       /\ PrintT(ToJson([id |-> "re" \o IdOf(c), kind |-> "render", tm |-> "TraceRender", prog |-> RProgs(AllCustom(c))[c.k], env |-> REnv,
+                         spell |-> [delims |-> QuadOf(c)], chkline |-> TRUE, line0 |-> 1,
+                         predelims |-> << <<60, 60>>, <<62, 62>>, <<60, 37>>, <<37, 62>> >>]))
 =============================================================================
